@@ -153,3 +153,75 @@ func vfH_C15_tx_paths() {
 	}
 	vfReach("done")
 }
+
+// buffer ownership when an out-of-band message meets Close: SendOOB on a closed FEC session, with
+// the post-processing queue full or with room. Whatever outcome its select takes (queued, session
+// closing, dropped), the pooled buffer it acquired ends up with exactly one owner: handed to the
+// queue, or recycled exactly once (the ghost pool reports a second Put on any path).
+func vfH_C15_oob_meets_close() {
+	conn := vfNewConn()
+	s := vfNewSession(vfU32("conv"), 2, 1, nil, conn, vfServerAddr, nil)
+	vfSetClock(vfU32("t0"))
+	full := vfPick("queue-full", 0, 1) == 1
+	if full {
+		for len(s.chPostProcessing) < cap(s.chPostProcessing) {
+			s.chPostProcessing <- sendRequest{defaultBufferPool.Get()[:40], false}
+		}
+	}
+	closed := vfPick("closed", 0, 1) == 1
+	if closed {
+		vfAssert("oobclose/close", s.Close() == nil)
+	}
+	queued0, live0 := len(s.chPostProcessing), vfPoolLive()
+	vfReach("pre")
+	err := s.SendOOB(vfBytes("oob", 3))
+	vfReach("post")
+	queued := len(s.chPostProcessing) - queued0
+	vfAssert("c15/oob/queued-at-most-once", queued == 0 || queued == 1)
+	// one acquisition: either it sits in the queue (live +1) or it was recycled (live +0)
+	vfAssert("c15/oob/buffer-has-exactly-one-owner", vfGhost(vfPoolLive() == live0+queued))
+	if !closed {
+		vfAssert("c15/oob/live-session-never-fails", err == nil)
+	}
+	if full && !closed {
+		vfAssert("c15/oob/full-queue-drops", queued == 0)
+	}
+}
+
+// Close with a full accept backlog: a new peer's datagrams arrive (on the receive goroutine)
+// while the application has not accepted the 128 earlier connections. Nothing may be left
+// behind after the listener, the client and the transport are closed — in particular the
+// receive goroutine must not be parked forever handing over a session nobody will accept.
+func vfH_C15_close_with_full_backlog() {
+	vfSetClock(vfU32("t0"))
+	vfGoroutineMode(1, false)
+	SystemTimedSched = NewTimedSched(1)
+	sched := SystemTimedSched
+	cconn, lconn := vfNewScriptedBlockingConn(), vfNewScriptedBlockingConn()
+	client := newUDPSession(vfU32("conv"), 0, 0, nil, cconn, false, vfServerAddr, nil)
+	l, _ := serveConn(nil, 0, 0, lconn, false)
+	for i := 0; i < acceptBacklog; i++ {
+		l.chAccepts <- nil
+	}
+	client.Write(vfBytes("m", 3))
+	vfQuiesce(int(time.Millisecond))
+	vfAssert("backlog/client-emitted", len(cconn.writes) >= 1)
+	for _, w := range cconn.writes {
+		dg := vfCopy(w.data)
+		go l.packetInput(dg, vfClientAddr) // what the listener's receive goroutine does
+	}
+	vfQuiesce(int(time.Millisecond))
+	vfReach("arrived")
+	vfAssert("c15/backlog/full-backlog-creates-nothing", len(l.sessions) == 0)
+	client.Close()
+	l.Close()
+	vfQuiesce(int(200 * time.Millisecond))
+	cconn.fail()
+	lconn.fail()
+	vfQuiesce(int(200 * time.Millisecond))
+	sched.Close()
+	vfQuiesce(int(time.Millisecond))
+	vfReach("closed")
+	vfAssert("c15/backlog/every-goroutine-has-exited", vfLiveGoroutines() == 0)
+	vfAssert("c15/backlog/no-update-callback-left-pending", len(sched.prependTasks) == 0)
+}
